@@ -158,6 +158,16 @@ func (o *OperationPermissions) FilterSchema(schema *ast.Schema) *ast.Schema {
 		newSchema.Types["Subscription"] = newSchema.Subscription
 	}
 
+	// directive definitions are shared with the unfiltered schema: keep the types of their arguments
+	for _, d := range schema.Directives {
+		for _, a := range d.Arguments {
+			name := a.Type.Name()
+			if _, ok := newSchema.Types[name]; !ok && schema.Types[name] != nil {
+				newSchema.Types[name] = schema.Types[name]
+			}
+		}
+	}
+
 	return &newSchema
 }
 
